@@ -63,6 +63,15 @@ def chunking(n, kind, seed):
         return [1] * n
     if kind == "sevens":
         return [7] * (n // 7) + ([n % 7] if n % 7 else [])
+    if kind == "with-empties":
+        # empty write() calls among the others (raw streams pass them on; buffered ones swallow them)
+        rng = random.Random(repr(("empties", n, seed)))
+        out, left = [0] if rng.random() < 0.5 else [], n
+        while left:
+            k = rng.randint(1, min(left, 9))
+            out += [k] + ([0] if rng.random() < 0.4 else [])
+            left -= k
+        return out
     if kind == "big":
         out, left = [], n
         while left:
@@ -106,7 +115,7 @@ def cases(desc):
                         # an expedited write needs the whole value in one write() (API design: a short
                         # write returns 0, which a BufferedWriter with a smaller buffer retries forever)
                         continue
-                    for ck in ("whole", "ones", "sevens", "big", "random"):
+                    for ck in ("whole", "ones", "sevens", "big", "random") + (("with-empties",) if buffering == 0 else ()):
                         variants.append({"dir": "down", "path": "open", "declare": declare, "force": force,
                                          "buffering": buffering, "chunks": ck})
         for declare in (True, False):
@@ -341,6 +350,9 @@ def do_download(rig, c, index, sub, data):
             fp.write(data.decode("ascii"))
         return
     sizes = chunking(n, c["chunks"], c["seed"])
+    while size is not None and len(sizes) > 1 and sizes[-1] == 0:
+        sizes.pop()       # (an empty write() after the last declared byte is refused by the stream - "all expected data has already
+        #                    been transmitted" - by design; not a chunking of the payload)
     buffering = c["buffering"]
     expedited = size is not None and 1 <= size <= 4 and not c["force"]
     fp = sdo.open(index, sub, "wb", buffering=buffering, size=size, force_segment=c["force"])
@@ -351,6 +363,8 @@ def do_download(rig, c, index, sub, data):
         for k in sizes:
             chunk = data[pos:pos + k]
             pos += k
+            if buffering == 0 and not chunk and not expedited:
+                fp.write(b"")
             if buffering == 0:
                 while chunk:                 # raw streams may accept fewer bytes than offered
                     w = fp.write(chunk)
